@@ -307,6 +307,45 @@ def check_value(v, label):
     return "ok", None
 
 
+def reuse_cases():
+    """the encoding is a function of the VALUE, not of what the object went through: an object that was encoded once, then
+    changed (a container field mutated in place, a field of a nested object assigned, a plain assignment), then encoded
+    again.  yields (label, value, mutate)"""
+    p1 = C13One(x=[1])
+    yield "list field appended in place", p1, lambda: p1.x.append(2)
+    p2 = C13One(x={"a": 1})
+    yield "dict field item assigned in place", p2, lambda: p2.x.__setitem__("b", 2)
+    p3 = C13One(x={1})
+    yield "set field added in place", p3, lambda: p3.x.add(-129)
+    inner = C13One(x=1)
+    p4 = C13Three(a=inner, b=[inner], c=None)
+    yield "field of a nested object assigned", p4, lambda: setattr(inner, "x", 100)
+    p5 = C13Defaults(items=[1, 2], scores={"a": 1})
+    yield "container fields of a class with defaults changed in place", p5, lambda: (p5.items.pop(), p5.scores.clear())
+    p6 = C13One(x=1)
+    yield "plain attribute assignment", p6, lambda: setattr(p6, "x", "two")
+    q = C13One(x=[0])
+    v7 = [q, q, {"k": q}]
+    yield "the same object several times in one value, changed in place", v7, lambda: q.x.__setitem__(0, 5)
+    p8 = C13Three(a=[], b={}, c=set())
+    yield "empty container fields filled in place", p8, lambda: (p8.a.append(None), p8.b.__setitem__(0, False), p8.c.add(b""))
+
+
+def check_reuse():
+    out = []
+    n = 0
+    for label, v, mutate in reuse_cases():
+        for step in ("first encoding", "after the change", "after the change, encoded a third time"):
+            n += 1
+            cls, bad = check_value(v, "re-used object: %s (%s)" % (label, step))
+            if bad:
+                out.append(bad)
+                break
+            if step == "first encoding":
+                mutate()
+    return n, out
+
+
 def describe(v, label):
     """specific class of the failing value (for known-finding matching)"""
     def has_tuple_key(x):
@@ -374,6 +413,11 @@ def run(tier, seed):
             acc[(bad[0], bad[1])] = [1, {"label": label, "family": "at-limit"}, bad[2][:300]]
         else:
             distinct += 1
+    # objects that are encoded, changed and encoded again
+    n_reuse, bad_reuse = check_reuse()
+    total += n_reuse
+    for bad in bad_reuse:
+        acc[(bad[0], bad[1])] = [1, {"family": "reuse"}, bad[2][:300]]
     # out of domain
     ood = 0
     for v, label in out_of_domain():
@@ -416,6 +460,9 @@ def replay(witness):
             if label == witness["label"]:
                 cls, bad = check_value(v, label)
                 return [core.Violation(bad[0], bad[1], witness, bad[2][:300])] if bad else []
+    if witness.get("family") == "reuse":
+        n, bads = check_reuse()
+        return [core.Violation(b[0], b[1], witness, b[2][:300]) for b in bads]
     if witness.get("family") == "out-of-domain":
         for v, label in out_of_domain():
             if label == witness["label"]:
